@@ -372,7 +372,7 @@ func (a *Agents) execCB(op *Op) bool {
 	case ss == "forged":
 	default:
 		base := ss
-		if ss == "near" || ss == "upper" {
+		if ss == "near" || ss == "upper" || ss == "truncated" || ss == "extended" {
 			base = "own"
 		}
 		ar := authOf(base)
@@ -390,6 +390,10 @@ func (a *Agents) execCB(op *Op) bool {
 			state = string(b)
 		} else if ss == "upper" {
 			state = strings.ToUpper(state)
+		} else if ss == "truncated" {
+			state = state[:len(state)-1]
+		} else if ss == "extended" {
+			state += "0"
 		}
 	}
 	_, _, cp, _ := splitURL(f.Spec.CallbackURI())
